@@ -89,6 +89,13 @@ func (w *webSessionFactory) sealToken(token string) (status int, errorStr string
 }
 
 func (w *webSessionFactory) openToken(nonce, enctoken []byte) (status int, errorStr string, token string) {
+	// Open panics when the nonce has the wrong length - it comes straight from the request
+	if len(nonce) != w.aesgcm.NonceSize() {
+		status = http.StatusBadRequest
+		errorStr = "invalid session token"
+		return
+	}
+
 	tokendata, err := w.aesgcm.Open(nil, nonce, enctoken, nil)
 	if err != nil {
 		status = http.StatusUnauthorized
